@@ -246,4 +246,243 @@ Section Glue.
           apply (registered_areg (slots g) w Hc Ha). exists (root e), e. split; [exists k, hh; exact Hk|auto].
     - injection Hmi as <-. intros q. split; [auto|]. intros [Hq|[_ [F _]]]; [exact Hq|discriminate].
   Qed.
+  Lemma registered_areg_PW l l' q : PW l l' -> Core l -> addr_ok l ->
+    registered (areg l') q = registered (areg l) q.
+  Proof.
+    intros Hpw Hc Ha.
+    pose proof (registered_areg l q Hc Ha) as H1.
+    pose proof (registered_areg l' q (Core_PW hashf _ _ Hpw Hc) (addr_ok_PW _ _ Hpw Ha)) as H2.
+    assert (Hiff : registered (areg l') q = true <-> registered (areg l) q = true).
+    { rewrite H1, H2. split; intros [s Hs]; exists s; apply (PW_regs _ _ q s Hpw); exact Hs. }
+    destruct (registered (areg l') q), (registered (areg l) q); try reflexivity.
+    - symmetry. apply Hiff. reflexivity.
+    - apply Hiff. reflexivity.
+  Qed.
+
+  Section Sim.
+    Variable sl0 : list gslot.            (* the slot array when the collection starts *)
+    Hypothesis Hc0 : Core sl0.
+    Hypothesis Ha0 : addr_ok sl0.
+    Variables lo hi : N.                  (* gc->minptr, gc->maxptr: constant during a mark phase *)
+    Let rg := areg sl0.
+
+    Record Sim (g : gc) (m : marks) : Prop := mkSim {
+      sim_inv : InvM g;
+      sim_pw : PW sl0 (slots g);
+      sim_nz : nslots g <> 0;
+      sim_lo : minptr g = lo;
+      sim_hi : maxptr g = hi;
+      sim_quiet : Quiet g;
+      sim_marks : forall q, Marked (slots g) q <-> marked m q = true
+    }.
+
+    Definition osim (oc : outcome gc) (oa : outcome marks) : Prop :=
+      match oc, oa with
+      | Ok g', Ok m' => Sim g' m'
+      | Crash, Crash => True
+      | OutOfFuel, OutOfFuel => True
+      | _, _ => False
+      end.
+
+    Definition rec_sim (crec : contents -> gc -> outcome gc) (arec : contents -> marks -> outcome marks) : Prop :=
+      forall c g m, Sim g m -> osim (crec c g) (arec c m).
+
+    Lemma Sim_addr_ok g m : Sim g m -> addr_ok (slots g).
+    Proof. intros S. eapply addr_ok_PW; [apply (sim_pw g m S)|exact Ha0]. Qed.
+
+    Lemma Sim_registered g m q : Sim g m -> registered (areg (slots g)) q = registered rg q.
+    Proof. intros S. apply registered_areg_PW; [apply (sim_pw g m S)|exact Hc0|exact Ha0]. Qed.
+
+    Lemma bind_sim oc oa (fc : gc -> outcome gc) (fa : marks -> outcome marks) :
+      osim oc oa -> (forall g m, Sim g m -> osim (fc g) (fa m)) -> osim (bind oc fc) (bind oa fa).
+    Proof. destruct oc, oa; simpl; intros H Hf; try contradiction; auto. Qed.
+
+    Lemma fold_sim {A} (cf : A -> gc -> outcome gc) (af : A -> marks -> outcome marks) (l : list A) :
+      (forall a g m, In a l -> Sim g m -> osim (cf a g) (af a m)) ->
+      forall g m, Sim g m -> osim (fold_o cf l g) (fold_o af l m).
+    Proof.
+      induction l as [|a l IH]; intros Hf g m S.
+      - exact S.
+      - rewrite !fold_o_cons. apply bind_sim.
+        + apply Hf; [simpl; auto|exact S].
+        + intros g1 m1 S1. apply IH; [|exact S1]. intros a0 g0 m0 Ha0' S0. apply Hf; [simpl; auto|exact S0].
+    Qed.
+
+    Lemma marked_bool_eq g m q : Sim g m -> cmarked (slots g) q = marked m q.
+    Proof.
+      intros S. pose proof (sim_marks g m S q) as Hq. rewrite <- cmarked_spec in Hq.
+      destruct (cmarked (slots g) q), (marked m q); try reflexivity.
+      - symmetry. apply Hq. reflexivity.
+      - apply Hq. reflexivity.
+    Qed.
+
+    Section Level.
+      Variable crec : contents -> gc -> outcome gc.
+      Variable arec : contents -> marks -> outcome marks.
+      Hypothesis Hrec : rec_sim crec arec.
+
+      Lemma cdescend_sim p g m : Sim g m -> osim (cdescend crec p g) (descend h arec p m).
+      Proof. intros S. unfold cdescend, descend. destruct (nget p h); [apply Hrec; exact S|exact I]. Qed.
+
+      Lemma cmark_item_sim w g m : Sim g m ->
+        osim (cmark_item crec w g) (mark_item h rg lo hi arec w m).
+      Proof.
+        intros S. pose proof (Sim_addr_ok g m S) as Ha.
+        destruct (mark_item_exact g w (sim_inv g m S) (sim_nz g m S) Ha) as [g' [Hmi [Hpw [Hsr Hmk]]]].
+        rewrite (sim_lo g m S), (sim_hi g m S), (Sim_registered g m w S) in Hmk.
+        unfold cmark_item. rewrite Hmi. unfold mark_item.
+        assert (Sbase : forall m', (forall q, Marked (slots g') q <-> marked m' q = true) -> Sim g' m').
+        { intros m' Hm'. destruct Hsr as [Hn [Hmi' [Hlo [Hhi [Hr [Hp He]]]]]]. constructor.
+          - eapply InvM_PW; [apply (sim_inv g m S)|exact Hpw|repeat split; assumption].
+          - eapply PW_trans; [apply (sim_pw g m S)|exact Hpw].
+          - unfold nslots. rewrite (PW_length _ _ Hpw). apply (sim_nz g m S).
+          - rewrite Hlo. apply (sim_lo g m S).
+          - rewrite Hhi. apply (sim_hi g m S).
+          - unfold Quiet. rewrite Hp. apply (sim_quiet g m S).
+          - exact Hm'. }
+        rewrite (marked_bool_eq g m w S).
+        destruct (prefilter lo hi w) eqn:Hpf; [destruct (registered rg w) eqn:Hreg|].
+        - destruct (marked m w) eqn:Hmw; cbn [negb andb].
+          + (* already marked *)
+            apply Sbase. intros q. rewrite Hmk, (sim_marks g m S q). split; [|auto].
+            intros [Hq|[-> _]]; [exact Hq|exact Hmw].
+          + (* newly marked: traced *)
+            assert (Hw : cmarked (slots g') w = true).
+            { apply cmarked_spec. apply Hmk. right. auto. }
+            rewrite Hw. apply cdescend_sim. apply Sbase. intros q. rewrite Hmk, (sim_marks g m S q).
+            pose proof (registered_nonzero _ _ Hreg) as Hnz.
+            destruct (N.eq_dec q w) as [->|Hne].
+            * rewrite marked_setmark_same by assumption. split; auto.
+            * rewrite marked_setmark_other by assumption. split; [|auto].
+              intros [Hq|[Hq _]]; [exact Hq|contradiction].
+        - (* not registered *)
+          assert (Hsame : forall q, Marked (slots g') q <-> marked m q = true).
+          { intros q. rewrite Hmk, (sim_marks g m S q). split; [|auto]. intros [Hq|[_ [_ F]]]; [exact Hq|discriminate]. }
+          assert (Hw : cmarked (slots g') w = marked m w).
+          { pose proof (Hsame w) as Hq. rewrite <- cmarked_spec in Hq.
+            destruct (cmarked (slots g') w), (marked m w); try reflexivity; [symmetry|]; apply Hq; reflexivity. }
+          rewrite Hw. destruct (marked m w); cbn [negb andb]; apply Sbase; exact Hsame.
+        - (* rejected by the prefilter *)
+          assert (Hsame : forall q, Marked (slots g') q <-> marked m q = true).
+          { intros q. rewrite Hmk, (sim_marks g m S q). split; [|auto]. intros [Hq|[_ [F _]]]; [exact Hq|discriminate]. }
+          assert (Hw : cmarked (slots g') w = marked m w).
+          { pose proof (Hsame w) as Hq. rewrite <- cmarked_spec in Hq.
+            destruct (cmarked (slots g') w), (marked m w); try reflexivity; [symmetry|]; apply Hq; reflexivity. }
+          rewrite Hw. destruct (marked m w); cbn [negb andb]; apply Sbase; exact Hsame.
+      Qed.
+
+      Lemma cmark_and_recurse_sim p g m : Sim g m ->
+        osim (cmark_and_recurse crec p g) (mark_and_recurse true h rg lo hi arec p m).
+      Proof.
+        intros S. unfold cmark_and_recurse, mark_and_recurse.
+        rewrite (gc_mem_areg g p (sim_inv g m S) (Sim_addr_ok g m S)), (Sim_registered g m p S).
+        destruct (registered rg p); [apply cmark_item_sim|apply cdescend_sim]; exact S.
+      Qed.
+
+      Lemma ctrace_with_sim : rec_sim (ctrace_with crec) (trace_with true h rg lo hi arec).
+      Proof.
+        intros c. induction c as [ws|es IH|ps|] using contents_ind'; intros g m S; cbn [ctrace_with trace_with].
+        - apply fold_sim; [|exact S]. intros a g0 m0 _ S0. apply cmark_item_sim. exact S0.
+        - apply fold_sim; [|exact S]. intros a g0 m0 Ha S0. rewrite Forall_forall in IH. apply (IH a Ha). exact S0.
+        - apply fold_sim; [|exact S]. intros a g0 m0 _ S0. apply cmark_and_recurse_sim. exact S0.
+        - exact S.
+      Qed.
+    End Level.
+
+    Lemma ctrace_sim : forall fuel, rec_sim (ctrace fuel) (trace true h rg lo hi fuel).
+    Proof.
+      induction fuel as [|f IH]; intros c g m S.
+      - exact I.
+      - cbn [ctrace trace]. apply ctrace_with_sim; [exact IH|exact S].
+    Qed.
+
+    (* an entry's own mark bit is what the abstract mark set says about its address *)
+    Lemma entry_marked_eq g m i hh e : Sim g m -> at_ (slots g) i = Some (hh, e) -> marked m (ptr e) = emarked e.
+    Proof.
+      intros S Hat. pose proof (sim_marks g m S (ptr e)) as Hq.
+      assert (He : Holds (slots g) e) by (exists i, hh; exact Hat).
+      destruct (emarked e) eqn:Hm.
+      - apply Hq. exists e. auto.
+      - destruct (marked m (ptr e)) eqn:Hmm; [|reflexivity].
+        destruct (proj2 Hq eq_refl) as [x [Hx [Hp Hxm]]].
+        assert (x = e) by (apply (Core_UQ_same hashf (slots g) x e (inv_core hashf g (sim_inv g m S)) Hx He Hp)).
+        subst x. congruence.
+    Qed.
+
+    Lemma skipn_at (l : list gslot) k : k < length l -> skipn k l = at_ l k :: skipn (S k) l.
+    Proof.
+      revert k. induction l as [|a l IH]; intros k Hk; simpl in Hk; [lia|].
+      destruct k as [|k]; [reflexivity|]. simpl. unfold RobinHood.at_ in *. simpl. apply IH. lia.
+    Qed.
+
+    (* the root loop over slot indices and the abstract root pass over the addresses in slot order *)
+    Lemma croot_sim crec arec : rec_sim crec arec ->
+      forall d k g m, k + d = length sl0 -> Sim g m ->
+        osim (fold_o (croot_step crec) (seq k d) g)
+             (fold_o (root_step h rg arec) (map ptr (entries (skipn k sl0))) m).
+    Proof.
+      intros Hrec. induction d as [|d IH]; intros k g m Hk S.
+      - assert (k = length sl0) by lia. subst k. rewrite skipn_all. exact S.
+      - cbn [seq]. rewrite skipn_at by lia. rewrite (entries_cons gentry).
+        pose proof (PW_at _ _ k (sim_pw g m S)) as Hrel.
+        rewrite fold_o_cons. unfold croot_step at 1.
+        inversion Hrel as [Hn0 Hn1|hh e0 e Hp Hr Hs0 Hs1].
+        + (* empty slot *)
+          cbn [bind]. apply IH; [lia|exact S].
+        + symmetry in Hs0, Hs1.
+          cbn [map]. rewrite fold_o_cons. apply bind_sim; [|intros g1 m1 S1; apply IH; [lia|exact S1]].
+          unfold root_step.
+          assert (He0 : Holds sl0 e0) by (exists k, hh; exact Hs0).
+          unfold rg. rewrite (is_root_areg sl0 e0 Hc0 Ha0 He0). rewrite Hp, Hr.
+          rewrite (entry_marked_eq g m k hh e S Hs1).
+          destruct (root e && negb (emarked e)) eqn:Hb; [|exact S].
+          apply andb_true_iff in Hb. destruct Hb as [_ Hb]. apply negb_true_iff in Hb.
+          apply cdescend_sim; [exact Hrec|].
+          assert (Hpw : PW (slots g) (upd k (Some (hh, esetmark e)) (slots g)))
+            by (apply PW_upd with (e := e); auto).
+          pose proof (Sim_addr_ok g m S e ltac:(exists k, hh; exact Hs1)) as [Hnz _].
+          constructor; cbn [slots set_slots minptr maxptr].
+          * eapply InvM_PW; [apply (sim_inv g m S)|exact Hpw|repeat split].
+          * eapply PW_trans; [apply (sim_pw g m S)|exact Hpw].
+          * unfold nslots. cbn [slots set_slots]. rewrite (upd_length gentry). apply (sim_nz g m S).
+          * apply (sim_lo g m S).
+          * apply (sim_hi g m S).
+          * apply (sim_quiet g m S).
+          * intros q. rewrite (Marked_upd (slots g) k hh e Hs1 q), (sim_marks g m S q).
+            destruct (N.eq_dec q (ptr e)) as [->|Hne].
+            -- rewrite marked_setmark_same by assumption. split; auto.
+            -- rewrite marked_setmark_other by assumption. split; [|auto]. intros [Hq|Hq]; [exact Hq|contradiction].
+    Qed.
+  End Sim.
+
+  (* the whole mark phase: concrete GC_Mark over the C17 registry and the abstract mark of
+     MarkSweep.v over its abstraction run in lock step *)
+  Lemma cmark_sim g fuel tls stack : Inv hashf g -> Quiet g -> addr_ok (slots g) -> nitems g <> 0 ->
+    osim (slots g) (minptr g) (maxptr g)
+      (cmark fuel tls stack g)
+      (mark true true h (areg (slots g)) (minptr g) (maxptr g) fuel (aorder (slots g)) tls stack nempty).
+  Proof.
+    intros [Hm Hcl] Hq Ha Hn. pose proof (inv_core hashf g Hm) as Hc.
+    assert (Hnz : nslots g <> 0).
+    { destruct (inv_room hashf g Hm) as [Hz|Hlt]; [|unfold nslots in *; lia].
+      pose proof (inv_count hashf g Hm). pose proof (occupied_le gentry (slots g)). unfold nslots in Hz. lia. }
+    assert (S0 : Sim (slots g) (minptr g) (maxptr g) g nempty).
+    { constructor; auto; [apply PW_refl|].
+      intros q. rewrite marked_nempty. split; [|discriminate].
+      intros [e [He [_ Hme]]]. rewrite (Hcl e He) in Hme. discriminate. }
+    unfold cmark, mark. destruct (Nat.eqb_spec (nitems g) 0) as [|_]; [contradiction|].
+    destruct (aorder (slots g)) as [|o0 ord'] eqn:Eo.
+    { exfalso. apply Hn. rewrite (inv_count hashf g Hm). unfold aorder in Eo.
+      rewrite (occupied_entries gentry). apply (f_equal (@length _)) in Eo. rewrite map_length in Eo. exact Eo. }
+    rewrite <- Eo. clear Eo o0 ord'.
+    apply bind_sim.
+    - apply fold_sim; [|exact S0]. intros a g0 m0 _ Sg. apply ctrace_with_sim; auto. apply ctrace_sim; auto.
+    - intros g1 m1 S1. apply bind_sim.
+      + pose proof (croot_sim (slots g) Hc Ha (minptr g) (maxptr g) (ctrace fuel)
+                      (trace true h (areg (slots g)) (minptr g) (maxptr g) fuel)
+                      (ctrace_sim (slots g) Hc Ha (minptr g) (maxptr g) fuel) (nslots g) 0 g1 m1 eq_refl S1) as Hr.
+        cbn [skipn] in Hr. exact Hr.
+      + intros g2 m2 S2. apply fold_sim; [|exact S2]. intros a g0 m0 _ Sg.
+        apply cmark_item_sim; auto. apply ctrace_sim; auto.
+  Qed.
 End Glue.
